@@ -7,6 +7,7 @@ single threaded); indices reported by a shard are shifted back to global case nu
 from __future__ import annotations
 
 import json
+import shutil
 from concurrent.futures import ThreadPoolExecutor
 from pathlib import Path
 
@@ -18,6 +19,8 @@ def sharded_verdict(ctx, spec_dirs, module, lines, env, cases_key, verdict_key, 
     n = len(lines)
     nshards = max(1, min(nshards, (n + 999) // 1000))
     size = (n + nshards - 1) // nshards
+    for stale in ctx.build.glob("verdict*"):  # shard directories of an earlier run
+        shutil.rmtree(stale, ignore_errors=True)
     jobs = []
     for k in range(nshards):
         part = lines[k * size:(k + 1) * size]
@@ -43,3 +46,19 @@ def sharded_verdict(ctx, spec_dirs, module, lines, env, cases_key, verdict_key, 
 
     with ThreadPoolExecutor(max_workers=len(jobs)) as ex:
         return list(ex.map(one, jobs))
+
+
+def require_reachable(ctx, wd, module, consts, invariants, workers=2, together=True):
+    """Reachability companions: every listed invariant is the negation of a situation the real invariants talk
+    about and must be VIOLATED on a small configuration; otherwise the model-checking result would be
+    vacuous -> machinery failure.  together=True: one TLC run with -continue (every violating state is reported,
+    good for small graphs); together=False: one run per invariant, each stopping at its first violation."""
+    groups = [list(invariants)] if together else [[i] for i in invariants]
+    seen = set()
+    for g in groups:
+        (wd / "Reach.cfg").write_text(tlc.mk_cfg(constants=consts, invariants=g))
+        r = tlc.run(wd, module, "Reach.cfg", workers=workers, cont=together)
+        seen |= {v.name for v in r.violations}
+    missing = [i for i in invariants if i not in seen]
+    if missing:
+        raise RuntimeError(f"vacuous: {module} never reaches the situations {missing}")
